@@ -372,8 +372,11 @@ func (k Keeper) EstimateGasInternal(c context.Context, req *types.EthCallRequest
 				WithKVGasConfig(storetypes.GasConfig{}).
 				WithTransientKVGasConfig(storetypes.GasConfig{})
 		}
-		// pass false to not commit StateDB
-		rsp, err = k.ApplyMessageWithConfig(tmpCtx, msg, nil, false, cfg, txConfig)
+		// pass false to not commit StateDB. Gas estimation never exposes a trace: do
+		// not run it under the node's configured tracer, whose state reads would be
+		// charged to the caller's gas meter when the estimation is internal
+		// (module calls into the EVM during DeliverTx).
+		rsp, err = k.ApplyMessageWithConfig(tmpCtx, msg, types.NewNoOpTracer(), false, cfg, txConfig)
 		if err != nil {
 			if errors.Is(err, core.ErrIntrinsicGas) {
 				return true, nil, nil // Special case, raise gas limit
